@@ -255,9 +255,17 @@ def method(interp, em: ExtMethod, args: list, kwargs: dict) -> Any:
             return AIter(iter(list(o.attrs["ns"].items)), "namespaces")
         if name == "bind":
             prefix, ns = args[0], args[1]
-            interp.emit("bind", graph=o, prefix=prefix, ns=ns)
+            override = kwargs.get("override", args[2] if len(args) > 2 else True)
+            interp.emit("bind", graph=o, prefix=prefix, ns=ns, override=override)
             nsv = ns if (isinstance(ns, ExtObj) and ns.kind == "rdflib.URIRef") else uri(_to_strval(interp, ns))
             lst = o.attrs["ns"].items
+            # rdflib NamespaceManager.bind: a namespace already bound to another prefix keeps that prefix unless override
+            for i, (p, n_) in enumerate(lst):
+                if interp.truth(interp.eq(n_, nsv), "bind-ns") and not interp.truth(interp.eq(p, prefix), "bind-prefix"):
+                    if not interp.truth(override, "bind-override"):
+                        return None
+                    del lst[i]
+                    break
             for i, (p, _n) in enumerate(lst):
                 if interp.truth(interp.eq(p, prefix), "bind-prefix"):
                     lst[i] = (prefix, nsv)
